@@ -1,2 +1,77 @@
-From Cmr Require Import Base Det KsumModel.
-Theorem placeholder_C12 : True. Proof. exact I. Qed.
+(* Properties_C12.v — C12: k-sum decomposition and composition are mutually inverse (model level: block formulas)
+   and what acceptance by the judges means.  Proofs in KsumProofs.v. *)
+From Cmr Require Import Base Det BaseProofs PivotModel PivotProofs KsumModel KsumProofs.
+Local Open Scope Z_scope.
+
+(* The composition model IS the documented block formula: a Delta-sum that is accepted has operands of the
+   documented shape [A a a; c^T 0 eps], [eps 0 b^T; d d D] with equal eps, and its result is [A a b^T; d c^T D]
+   (entries reduced to the canonical residues of the characteristic), for operands of every size and with the
+   special lines at arbitrary positions. *)
+Theorem C12_deltasum_is_block_formula : forall p m1 n1 M1 m2 n2 M2 r1 c1a c1b r2 c2a c2b M,
+  deltasum p m1 n1 M1 m2 n2 M2 r1 c1a c1b r2 c2a c2b = KOk M ->
+  let R1 := keep_idx m1 [r1] in let C1 := keep_idx n1 [c1a; c1b] in
+  let R2 := keep_idx m2 [r2] in let C2 := keep_idx n2 [c2a; c2b] in
+  ((r1 < m1)%nat /\ (c1a < n1)%nat /\ (c1b < n1)%nat /\ c1a <> c1b /\
+   (r2 < m2)%nat /\ (c2a < n2)%nat /\ (c2b < n2)%nat /\ c2a <> c2b) /\
+  (length R1 = (m1 - 1)%nat /\ length C1 = (n1 - 2)%nat /\
+   length R2 = (m2 - 1)%nat /\ length C2 = (n2 - 2)%nat) /\
+  ((forall i, In i R1 -> get M1 i c1a = get M1 i c1b) /\
+   get M1 r1 c1a = 0 /\ get M1 r1 c1b <> 0 /\ get M1 r1 c1b = get M2 r2 c2a /\
+   (forall i, In i R2 -> get M2 i c2a = get M2 i c2b) /\
+   get M2 r2 c2b = 0) /\
+  sum_blocks M M1 M2 R1 C1 R2 C2
+    (fun i j => modulo_ternary (get M1 (nth i R1 O) c1a * get M2 r2 (nth j C2 O)) p)
+    (fun i j => modulo_ternary (get M2 (nth i R2 O) c2a * get M1 r1 (nth j C1 O)) p).
+Proof. exact deltasum_spec. Qed.
+Print Assumptions C12_deltasum_is_block_formula.
+
+(* shape of an accepted k-sum call: only the four documented kinds with special-line lists of the documented lengths *)
+Theorem C12_documented_shapes : forall kind p m1 n1 M1 m2 n2 M2 fsr fsc ssr ssc M,
+  ksum kind p m1 n1 M1 m2 n2 M2 fsr fsc ssr ssc = KOk M ->
+  (kind = 2 /\ ((length fsr, length fsc, length ssr, length ssc) = (1, 0, 0, 1)%nat \/
+                (length fsr, length fsc, length ssr, length ssc) = (0, 1, 1, 0)%nat)) \/
+  (kind = 3 /\ (length fsr, length fsc, length ssr, length ssc) = (1, 2, 1, 2)%nat) \/
+  (kind = 4 /\ (length fsr, length fsc, length ssr, length ssc) = (2, 1, 2, 1)%nat) \/
+  (kind = 5 /\ (length fsr, length fsc, length ssr, length ssc) = (2, 3, 3, 2)%nat).
+Proof. exact ksum_ok_lengths. Qed.
+Print Assumptions C12_documented_shapes.
+
+(* composition judge: an accepted record means the library returned exactly the block-formula matrix when the
+   operands have the documented shape and an error when they do not; sums of TU components are TU where the oracle
+   applies (characteristic 3, up to 7x7) *)
+Theorem C12_compose_judge_sound :
+  forall rec kind p m1 n1 M1 m2 n2 M2 fsr fsc ssr ssc rc res rest,
+  kcompose_input rec = Some ((kind, p, (m1, n1, M1), (m2, n2, M2), fsr, fsc, ssr, ssc, rc, res), rest) ->
+  ((p =? 2) || (p =? 3)) && in_dom p M1 && in_dom p M2 = true ->
+  judge_kcompose rec = 0 ->
+  (forall M, ksum kind p m1 n1 M1 m2 n2 M2 fsr fsc ssr ssc = KOk M ->
+     rc = 0 /\ exists m n, res = Some (m, n, M) /\
+       ((p =? 3) && small m n && small m1 n1 && small m2 n2 &&
+        tu_bf m1 n1 M1 && tu_bf m2 n2 M2 = true -> tu_bf m n M = true)) /\
+  (ksum kind p m1 n1 M1 m2 n2 M2 fsr fsc ssr ssc = KErr -> rc <> 0).
+Proof. exact judge_kcompose_sound. Qed.
+Print Assumptions C12_compose_judge_sound.
+
+(* round trip: an accepted decomposition record means the two returned components have the documented shape, the
+   block formula applied to them with the returned special lines gives a matrix Mc whose lines correspond bijectively
+   (returned origin maps) to the lines of the input M with Mc = M under these maps, and the library's own compose
+   returns the same Mc; components of a TU matrix are TU where the oracle applies *)
+Theorem C12_roundtrip_judge_sound :
+  forall rec kind p m n M both rc1 X1 ro1 co1 fsr fsc rc2 X2 ro2 co2 ssr ssc rcc res rest,
+  kdecomp_input rec =
+    Some ((kind, p, (m, n, M), 1, both, (rc1, X1, ro1, co1, fsr, fsc), (rc2, X2, ro2, co2, ssr, ssc), rcc, res), rest) ->
+  ((p =? 2) || (p =? 3)) && in_dom p M = true ->
+  judge_kdecomp rec = 0 ->
+  rc1 = 0 /\ rc2 = 0 /\ rcc = 0 /\
+  exists m1 n1 M1 m2 n2 M2 Mc,
+    X1 = Some (m1, n1, M1) /\ X2 = Some (m2, n2, M2) /\
+    ksum kind p m1 n1 M1 m2 n2 M2 fsr fsc ssr ssc = KOk Mc /\
+    let orow := kd_orow kind m1 m2 ro1 ro2 fsr ssr in
+    let ocol := kd_ocol kind n1 n2 co1 co2 fsc ssc in
+    is_perm_of m orow = true /\ is_perm_of n ocol = true /\
+    Mc = submat M (map Z.to_nat orow) (map Z.to_nat ocol) /\
+    (exists mr nr, res = Some (mr, nr, Mc)) /\
+    (kd_tu_applies kind p both m1 n1 m2 n2 fsr fsc ssr ssc && small m n && tu_bf m n M = true ->
+     tu_bf m1 n1 M1 = true /\ tu_bf m2 n2 M2 = true).
+Proof. exact judge_kdecomp_sound. Qed.
+Print Assumptions C12_roundtrip_judge_sound.
